@@ -480,7 +480,7 @@ theorem stale_snapshot_witness :
 /-- **No flushed event is hidden after recovery from a stale snapshot** (the statement about the code as it is): a chunk
 the loaded index knows with fewer records than it holds gets — `syncChunk`, the regenerated branch — a hull that contains
 every record when its timestamps are monotone. -/
-theorem no_event_hidden_after_recovery_from_stale_snapshot (old : List ChkInfo) (ck : Chunk) (o : ChkInfo)
+theorem stale_snapshot_sync_first (old : List ChkInfo) (ck : Chunk) (o : ChkInfo)
     (hfind : old.find? (fun o => o.id == ck.id) = some o) (hmono : ck.recs.Pairwise (· ≤ ·)) (hs : o.recs < ck.recs.length) :
     ∀ t ∈ ck.recs, (syncChunk old ck).minTs ≤ t ∧ t ≤ (syncChunk old ck).maxTs := by
   have hf : syncChunksDropsStaleEntries = true := by decide
@@ -653,6 +653,61 @@ theorem no_event_hidden_after_first_write_on_lost_snapshot (m : CMap) (src : Src
       subst hh
       exact rebuildHull_sound _ _ t ht
     | succ j => simp at hck
+
+/-- the other order: the first thing that touches the chunk after the start is a WRITE. `onWrite` finds the snapshot entry
+(`last`, same chunk) accounting for fewer records than precede the batch, treats the chunk as notified from the middle
+(`onWriteStaleSnapshotEntryIsNewChk`) and has it rebuilt (`onWriteNewChunkMidwayRebuilds`); after the rebuild the hull
+contains every record — the ones the snapshot knew, the ones written between the snapshot and the crash, and the batch. -/
+theorem stale_snapshot_write_first (m : CMap) (src : Src) (cid : Nat) (before batch : List Int) (mn mx lo hi : Int)
+    (last : ChkInfo) (hm : alookup m src = some [last]) (hid : last.id = cid) (hstale : last.recs < before.length) :
+    let m' := cindexOnWriteR m src cid before batch mn mx
+    let ck : Chunk := ⟨cid, before ++ batch⟩
+    rangeVisible (hullView m' src [ck]) [ck] lo hi = rangeSpec [ck] lo hi := by
+  have f1 : onWriteStaleSnapshotEntryIsNewChk = true := by decide
+  have f2 : onWriteNewChunkMidwayRebuilds = true := by decide
+  have f3 : syncChunksDropsStaleEntries = true := by decide
+  have hne : before.isEmpty = false := by cases before <;> simp_all
+  let e : ChkInfo := rebuildHull (before ++ batch) { last.update mn mx with recs := before.length + batch.length }
+  have hm' : alookup (cindexOnWriteR m src cid before batch mn mx) src = some [e] := by
+    simp only [cindexOnWriteR, onWriteNewChk, hm, f1, f2, hne, cindexOnWrite, alookup_aset_self, List.getLast?_singleton,
+      List.dropLast_singleton, List.nil_append, hid, ne_eq, not_true_eq_false, decide_false, Bool.false_or, hstale,
+      decide_true, Bool.and_self, Bool.not_false, if_true, if_false, e]
+  have hide : e.id = cid := by
+    simp only [e]; unfold rebuildHull; split <;> simp [ChkInfo.update, hid]
+  have hrec : e.recs = before.length + batch.length := by
+    simp only [e]; unfold rebuildHull; split <;> simp [ChkInfo.update]
+  apply range_complete_of_sound_hulls
+  · simp [hullView, syncChunks]
+  · intro i h ck' hh hck t ht
+    cases i with
+    | zero =>
+      simp only [hullView, syncChunks, hm', Option.getD_some, List.map_cons, List.map_nil, List.getElem?_cons_zero,
+        Option.some.injEq] at hh hck
+      subst hck
+      have hs : syncChunk [e] ⟨cid, before ++ batch⟩ = e := by
+        simp [syncChunk, syncChunkB, hide, hrec]
+      rw [hs] at hh
+      subst hh
+      exact rebuildHull_sound _ _ t ht
+    | succ j => simp at hck
+
+/-- **No flushed event is hidden after recovery from a stale snapshot, whichever comes first** (F06 and its refinement
+F06b repaired: a2ca477, 7ea0278). The snapshot of an earlier clean stop knows a chunk with fewer records than it holds
+after the crash. (1) If the first thing that touches the chunk is a read (`syncChunks`), the entry is dropped and the
+monotone chunk gets a hull that contains every record. (2) If it is a write, the chunk is rebuilt and afterwards every
+RANGE query over it returns exactly the events in range. The facts are regenerated; reverting either commit breaks this. -/
+theorem no_event_hidden_after_recovery_from_stale_snapshot :
+    (syncChunksDropsStaleEntries = true ∧ dropStaleOnlySnapshotEntries = true ∧ onWriteStaleSnapshotEntryIsNewChk = true ∧
+      syncChunksNeverStoresEmptyList = true) ∧
+    (∀ (old : List ChkInfo) (ck : Chunk) (o : ChkInfo), old.find? (fun o => o.id == ck.id) = some o →
+      ck.recs.Pairwise (· ≤ ·) → o.recs < ck.recs.length →
+      ∀ t ∈ ck.recs, (syncChunk old ck).minTs ≤ t ∧ t ≤ (syncChunk old ck).maxTs) ∧
+    (∀ (m : CMap) (src : Src) (cid : Nat) (before batch : List Int) (mn mx lo hi : Int) (last : ChkInfo),
+      alookup m src = some [last] → last.id = cid → last.recs < before.length →
+      rangeVisible (hullView (cindexOnWriteR m src cid before batch mn mx) src [⟨cid, before ++ batch⟩]) [⟨cid, before ++ batch⟩] lo hi
+        = rangeSpec [⟨cid, before ++ batch⟩] lo hi) :=
+  ⟨by decide, stale_snapshot_sync_first,
+    fun m src cid before batch mn mx lo hi last hm hid hs => stale_snapshot_write_first m src cid before batch mn mx lo hi last hm hid hs⟩
 
 /-! ## non-vacuity -/
 
